@@ -173,6 +173,58 @@ Definition kv_text (k w1 w2 v : bytes) : bytes := k ++ w1 ++ [c_eq] ++ match v w
 Definition join_lines (ls : list bytes) : bytes := concat (map (fun l => l ++ [c_nl]) ls).
 Definition line_content (seg : bytes) : list bytes := match content_line seg with Some l => [l] | None => [] end.
 
+(* the grammar's lines: key = value, comment, blank *)
+Inductive gline :=
+| GKV (w0 k w1 w2 v w3 : bytes)
+| GComment (w rest : bytes)
+| GBlank (w : bytes).
+Definition gline_bytes (g : gline) : bytes :=
+  match g with
+  | GKV w0 k w1 w2 v w3 => kv_line w0 k w1 w2 v w3
+  | GComment w rest => w ++ c_hash :: rest
+  | GBlank w => w
+  end.
+Definition gline_ok (g : gline) : Prop :=
+  match g with
+  | GKV w0 k w1 w2 v w3 => blanks w0 /\ blanks w1 /\ blanks w2 /\ blanks w3 /\ clean_key k /\ clean_value v
+  | GComment w rest => blanks w /\ ~ In c_nl rest
+  | GBlank w => blanks w
+  end.
+Definition gline_text (g : gline) : list bytes := match g with GKV _ k w1 w2 v _ => [kv_text k w1 w2 v] | _ => [] end.
+Definition gline_kv (g : gline) : list (bytes * bytes) := match g with GKV _ k _ _ v _ => [(k, v)] | _ => [] end.
+Definition gline_val (k : bytes) (g : gline) : list bytes :=
+  match g with GKV _ k' _ _ v _ => if bytes_eqb k' k then [v] else [] | _ => [] end.
+(* a text run written as grammar lines: every line newline-terminated, or the last one left unterminated
+   (before a tag or the end of the document) *)
+Definition glines_text (ls : list gline) : bytes := join_lines (map gline_bytes ls).
+Definition glines_text_open (ls : list gline) : bytes :=
+  join_lines (map gline_bytes (removelast ls)) ++ gline_bytes (last ls (GBlank [])).
+Definition gtext (ls : list gline) (terminated : bool) : bytes := if terminated then glines_text ls else glines_text_open ls.
+
+(* a document whose text runs are grammar lines ([dec] names the lines of each run): what it assigns to key [k]
+   directly inside domain [K], and the lines it writes there, read off the pieces *)
+Section Grammar.
+  Variable dec : list atom -> list gline * bool.
+  Fixpoint gassigns (ps : list piece) (stk K : key) (k : bytes) : list bytes :=
+    match ps with
+    | [] => []
+    | PText l :: r => (if key_eqb stk K then flat_map (gline_val k) (fst (dec l)) else []) ++ gassigns r stk K k
+    | POpen n _ :: r => gassigns r (n :: stk) K k
+    | PClose _ _ :: r => gassigns r (tl stk) K k
+    | PEmpty _ _ :: r => gassigns r stk K k
+    end.
+  Fixpoint glines (ps : list piece) (stk K : key) : list bytes :=
+    match ps with
+    | [] => []
+    | PText l :: r => (if key_eqb stk K then flat_map gline_text (fst (dec l)) else []) ++ glines r stk K
+    | POpen n _ :: r => glines r (n :: stk) K
+    | PClose _ _ :: r => glines r (tl stk) K
+    | PEmpty _ _ :: r => glines r stk K
+    end.
+  Definition grammar_text (ps : list piece) : Prop :=
+    forall l, In (PText l) ps -> Forall gline_ok (fst (dec l)) /\ text_chars l = gtext (fst (dec l)) (snd (dec l)).
+End Grammar.
+
 (* ------------------------------------------------------------------------------------------- *)
 (* how a path is written: /a/b  and  /a/b<key> *)
 Definition path_string (v : list bytes) (k : option bytes) : bytes :=
